@@ -32,7 +32,7 @@ ASSUME = [
     "behaviour outside the model, sampled by the correspondence runs only",
     "a route dictionary has distinct paths (it is a dict); handler behaviour is an arbitrary function of the parameters (the theorems quantify over it)",
     "KGFnWrapper finds the symbol a handler is bound to by object identity; aliasing one function under two symbols is not generated",
-    "KGFnWrapper converts a decoded JSON list with the backend's kg_asarray (taken to keep every list a list of its elements; the pre-fix np.asarray behaviour is modelled by `deliver old_wflags`) and null as :undefined; JSON true/false and the numbers 1/0 are the same Klong value",
+    "KGFnWrapper converts a decoded JSON list with the backend's kg_asarray (modelled: every list stays a list of its elements, except that a flat list or equal-length rows of booleans AND numbers become a numeric array - known finding; the pre-fix np.asarray behaviour is `deliver old_wflags`) and null as :undefined; booleans are compared as booleans (true is not 1), JSON numbers by value",
     "numbers in generated JSON are multiples of 0.25 (exact in binary64); number text conversion is assumed",
     "no wall-clock in verdicts: completion is detected by a sentinel message / an answered request; time-outs (20 s) only bound a hang",
 ]
@@ -464,13 +464,21 @@ def gen_ws(rng, idx):
         elif r < 0.89:
             msgs.append(K_NULL)
         elif r < 0.93:
-            msgs.append(rng.choice([K_MIXED, [True, 2], ["a", 1.5]]))
+            msgs.append(rng.choice([K_MIXED, [True, 2], ["a", 1.5], [False, 0.5, 1], [[True, 2], [3, 4]], [[True, False], [1, 0]],
+                                    [True, False], [True, "x"], [True, None], [True, [1]]]))
         elif r < 0.96:
             msgs.append(rng.choice([K_RAGGED, [[1, 2], [3]], [[1], 2]]))
         else:
             msgs.append("boom")
     sends = rng.sample(SENDS, rng.randint(1, 4))
     return {"kind": "ws", "id": idx, "msgs": msgs, "sends": sends}
+
+
+def gen_burst(rng, idx, k):
+    """the peer sends k messages back-to-back and hangs up at once"""
+    pool = SCALARS + CLEAN_MSGS
+    msgs = [rng.choice(pool) if rng.random() < 0.5 else {"seq": i, "v": rng.choice(SCALARS)} for i in range(k)]
+    return {"kind": "ws", "id": "burst-%s-%d" % (idx, k), "msgs": msgs, "sends": [], "burst": True}
 
 
 # Klong source of a value to send, and the JSON tree it must arrive as
@@ -537,6 +545,9 @@ def fixed_scenarios():
     out.append({"kind": "ws", "id": "K-null", "msgs": [1, None, 2], "sends": [SENDS[0]]})
     out.append({"kind": "ws", "id": "K-ragged", "msgs": [1, [1, [2]], 2], "sends": []})
     out.append({"kind": "ws", "id": "K-mixed", "msgs": [[1, "x"], 3], "sends": [SENDS[5]]})
+    out.append({"kind": "ws", "id": "K-bool-number", "msgs": [True, [True, 2], False, [True, False], [[True, 2], [3, 4]], 1, 0], "sends": [SENDS[0]]})
+    out.append({"kind": "ws", "id": "burst-24", "burst": True, "sends": [],
+                "msgs": [{"seq": i, "v": [i, "x", True, None, 2.5, [i]][i % 6]} for i in range(24)]})
     out.append({"kind": "ws", "id": "all-kinds", "msgs": [0, -2, 2.5, "hé", True, False, [1, 2, 3], [], ["a"], [[1, 2], [3, 4]], {"a": [1, {"c": None}]}, {}],
                 "sends": SENDS[:]})
     return out
@@ -649,6 +660,14 @@ ws_state = {"port": None, "conn": None, "received": [], "connected": threading.E
 async def ws_handler(ws):
     ws_state["conn"] = ws
     ws_state["received"] = []
+    burst = ws_state.get("burst")
+    if burst is not None:
+        # send everything back-to-back and hang up at once (returning closes the connection)
+        ws_state["burst"] = None
+        for t in burst:
+            await ws.send(t)
+        ws_state["connected"].set()
+        return
     ws_state["connected"].set()
     try:
         async for m in ws:
@@ -691,7 +710,11 @@ def wslog(x, y):
     if isinstance(y, str) and y == "boom":
         raise RuntimeError("boom")
     return 0
+def wsecho(y):
+    # echo everything that has a JSON encoding (null arrives as :undefined, which has none) except the sentinel
+    return 0 if (y is None or y is KLONG_UNDEFINED or (isinstance(y, str) and y == %(sentinel)r)) else 1
 klong['wslog'] = wslog
+klong['wsecho'] = wsecho
 klong['npi'] = np.int32(7)
 klong['npf'] = np.float32(0.5)
 klong['npb'] = np.bool_(True)
@@ -708,19 +731,37 @@ def wait_for(pred, timeout):
 def do_ws(sc):
     del ws_calls[:]
     ws_state["connected"].clear()
-    K('.ws.m::{wslog(x;y)}')
-    K('c::.ws("ws://127.0.0.1:%%d")' %% ws_state["port"])
+    texts = [json.dumps(m) for m in sc["msgs"]] + [json.dumps(%(sentinel)r)]
+    burst = bool(sc.get("burst"))
+    if burst:
+        K('.ws.m::{wslog(x;y)}')
+        ws_state["burst"] = texts
+    else:
+        # the handler logs the message and sends it back through the connection
+        K('.ws.m::{wslog(x;y);:[wsecho(y);x(y);0]}')
+    nc = K('c::.ws("ws://127.0.0.1:%%d")' %% ws_state["port"])
     if not ws_state["connected"].wait(20):
         return {"error": "no connection"}
     conn = ws_state["conn"]
-    texts = [json.dumps(m) for m in sc["msgs"]] + [json.dumps(%(sentinel)r)]
-    async def push():
-        for t in texts:
-            await conn.send(t)
-    asyncio.run_coroutine_threadsafe(push(), srv_loop).result(20)
-    done = wait_for(lambda: %(sentinel)r in [c for c in ws_calls if isinstance(c, str)], sc["wait"])
-    out = {"calls": list(ws_calls), "sentinel": done, "sent": []}
-    if done:
+    if not burst:
+        async def push():
+            for t in texts:
+                await conn.send(t)
+        asyncio.run_coroutine_threadsafe(push(), srv_loop).result(20)
+    have_sentinel = lambda: %(sentinel)r in [c for c in ws_calls if isinstance(c, str)]
+    if burst:
+        # all frames and the close arrive together: done when the sentinel was handled or the client's loop has ended
+        ended = getattr(nc, "_run_exit_event", None)
+        wait_for(lambda: have_sentinel() or (ended is not None and ended.is_set()), 20)
+        time.sleep(0.05)
+        done = have_sentinel()
+    else:
+        done = wait_for(have_sentinel, sc["wait"])
+    out = {"calls": list(ws_calls), "sentinel": done, "sent": [], "echo": []}
+    if done and not burst:
+        n_echo = sum(1 for c in ws_calls if wsecho(c))
+        wait_for(lambda: len(ws_state["received"]) >= n_echo, 10)
+        out["echo"] = list(ws_state["received"])
         for i, (src, _) in enumerate(sc["sends"]):
             n0 = len(ws_state["received"])
             try:
@@ -780,6 +821,12 @@ def run_child(chk, scenarios):
 
 # ---------------------------------------------------------------- comparison
 def msg_class(m):
+    if isinstance(m, list) and m:
+        rows = m if all(isinstance(x, list) for x in m) and len({len(x) for x in m}) == 1 else None
+        lv = [y for x in m for y in x] if rows is not None else m
+        if all(isinstance(y, (bool, int, float)) for y in lv) and any(isinstance(y, bool) for y in lv) \
+                and any(not isinstance(y, bool) for y in lv):
+            return "C20-ws-bool-number-array"
     if m is None:
         return "C20-ws-null-message"
     if isinstance(m, list):
@@ -796,7 +843,8 @@ def msg_class(m):
 
 def same_json(a, b):
     """by value, numbers numerically"""
-    # Klong has no boolean type: true/false and 1/0 are the same value
+    if isinstance(a, bool) or isinstance(b, bool):
+        return isinstance(a, bool) and isinstance(b, bool) and a == b          # true/false are not 1/0
     if isinstance(a, (int, float)) and isinstance(b, (int, float)):
         return float(a) == float(b)
     if isinstance(a, list) and isinstance(b, list):
@@ -861,7 +909,8 @@ def check_ws(chk, sc, got, model):
         if m == "boom":
             break
     prop_ok = len(calls) == len(expected) and all(same_json(a, b) for a, b in zip(calls, expected))
-    known = sorted({k for k in (msg_class(m) for m in sc["msgs"]) if k})
+    # a message belongs to a known-finding class only if the MODEL of the current code says it is not delivered intact
+    known = sorted({msg_class(m) or "unclassified" for m, c in zip(sc["msgs"], classes) if c != "intact"})
     # model equality: same invocations (changed messages: the model only says that the value is NOT the original)
     corr = None
     if len(calls) != len(inv):
@@ -889,8 +938,25 @@ def check_ws(chk, sc, got, model):
                 break
         if sent_bad is None and len(got["sent"]) != len(sc["sends"]):
             sent_bad = {"expected_sends": len(sc["sends"]), "arrived": got["sent"]}
+    # echoes: the handler sends every message back; the text that arrives is the JSON encoding of what it received
+    echo_bad = None
+    if got["sentinel"] and not sc.get("burst"):
+        echoable = [(m, c) for m, c in zip(expected, calls) if c is not None and c != SENTINEL and c != "boom"] if len(calls) == len(expected) else []
+        for (m, c), text in zip(echoable, got.get("echo", [])):
+            try:
+                back = json.loads(text)
+            except (ValueError, TypeError):
+                back = ["<unparsable>", text]
+            if not same_json(back, c) and corr is None:
+                corr = {"handler_received": c, "echoed_text": text}
+            if not same_json(back, m) and not known and echo_bad is None:
+                echo_bad = {"message": m, "echoed_text": text, "what": "a message echoed by the handler did not come back as its JSON encoding"}
+        if echoable and len(got.get("echo", [])) < len(echoable) and echo_bad is None and not known:
+            echo_bad = {"what": "not every echoed message arrived", "expected": len(echoable), "arrived": got.get("echo")}
     prop = None
-    if sent_bad is not None:
+    if echo_bad is not None:
+        prop = echo_bad
+    elif sent_bad is not None:
         prop = dict(sent_bad, what="a value sent through the connection did not arrive as its JSON encoding")
     elif not prop_ok:
         prop = {"what": "messages were not handed to .ws.m exactly once, in order, intact", "messages": sc["msgs"], "handler_received": calls,
@@ -948,7 +1014,8 @@ def run(tier, replay=None):
         proof.update(ok=False, error="forbidden declarations: %r" % hits, broken=hits[0])
 
     nweb, nws = (150, 60) if tier == "quick" else (1200, 400)
-    scenarios = fixed_scenarios() + [gen_web(rng, i) for i in range(nweb)] + [gen_ws(rng, i) for i in range(nws)]
+    bursts = [gen_burst(rng, j, k) for j in range(2 if tier == "quick" else 10) for k in (1, 2, 8, 24, 100)]
+    scenarios = fixed_scenarios() + [gen_web(rng, i) for i in range(nweb)] + [gen_ws(rng, i) for i in range(nws)] + bursts
     first_prop, first_corr = evaluate(chk, scenarios)
     if first_prop is None and (first_corr is not None or not proof["ok"]):
         rng2 = random.Random(chk.seed + 77)
